@@ -318,21 +318,29 @@ def ilocOk (n : Nat) (p : Int) : Bool := decide (-(n : Int) ≤ p) && decide (p 
 /-- … and negative ones count from the end -/
 def ilocPos (n : Nat) (p : Int) : Nat := if p < 0 then (p + (n : Int)).toNat else p.toNat
 
+/-- the bin window `[bmin, bmax]` one block of `annotate` asks for: `0..0` without pixels; the
+min/max of the ids when `len(bins) > len(pixels)`; else everything from label 0 (`bmax = None`) -/
+def annotateWindow (binsLen : Nat) (ids : List Int) : Int × Option Int :=
+  match ids with
+  | [] => (0, some 0)
+  | i :: rest =>
+    if binsLen > ids.length then (rest.foldl min i, some (rest.foldl max i)) else (0, none)
+
+/-- `ann.index[0] if len(ann) else 0` -/
+def firstLabel : List Int → Int
+  | [] => 0
+  | l :: _ => l
+
 /-- one `if "binK_id" in columns:` block of `annotate` for the id column `ids`:
 the strategy switch on `len(bins) > len(pixels)`, the window, the offset `ann.index[0]` (0 when
 the window is empty), the positional take, the renamed columns -/
 def annotateSide (bins : BinsArg) (suffix : String) (ids : List Int) :
     Except Err (List String × List Row) :=
-  let win : Int × Option Int := match ids with
-    | [] => (0, some 0)
-    | i :: rest =>
-      if bins.len > ids.length then (rest.foldl min i, some (rest.foldl max i)) else (0, none)
+  let win := annotateWindow bins.len ids
   match locSlice bins win.1 win.2 with
   | .error e => .error e
   | .ok ann =>
-    let offset : Int := match ann.index with
-      | [] => 0
-      | l :: _ => l
+    let offset := firstLabel ann.index
     if !(ids.all fun b => ilocOk ann.rows.length (b - offset)) then .error .index
     else .ok (ann.cols.map (· ++ suffix),
               ids.map fun b => ann.rows.getD (ilocPos ann.rows.length (b - offset)) [])
